@@ -296,7 +296,7 @@ func solveAll(g *genOutput, obls []*vc.Obligation, timeout time.Duration) []oblR
 				o := obls[i]
 				if o.Cover && o.FullCover {
 					// axioms (quantified) must not be contradictory: unsat = broken
-					res[i] = oblResult{o, smt.Solve(g.prelude+o.Script, 5*time.Second)}
+					res[i] = oblResult{o, smt.AnyUnsat(g.prelude+o.Script, 8*time.Second)}
 					continue
 				}
 				if o.Cover {
